@@ -150,10 +150,24 @@ def check_find(case, ctx):
             ctx.label("cross-year")
         period = G.dir_period(tpl)
 
+        shared_filters = {}       # one dict object per distinct filter spec
         for q in case["queries"]:
             start, end = q["start"], q["end"]
+            filters_arg = None
+            if q["filters"] is not None:
+                # the caller's filters dictionary is reused for every query
+                # with the same specification and must never be modified
+                key = repr(sorted(q["filters"].items()))
+                if key in shared_filters:
+                    ctx.label("filters-dict-reused")
+                filters_arg = shared_filters.setdefault(
+                    key, dict(q["filters"]))
+                ctx.check(filters_arg == q["filters"],
+                          "find/callers-filters-dict-modified", lambda: (
+                              "filters given as %r are now %r" % (
+                                  q["filters"], filters_arg)))
             kwargs = {"sort": q["sort"], "only_path": q["only_path"],
-                      "bundle": q["bundle"], "filters": q["filters"],
+                      "bundle": q["bundle"], "filters": filters_arg,
                       "no_files_error": q["no_files_error"]}
             lo = dt.datetime.min if start is None else start
             hi = dt.datetime.max if end is None else end
@@ -491,7 +505,11 @@ def find_cases(draw):
             "start": start, "end": end,
             "sort": draw(st.booleans()),
             "only_path": draw(st.integers(0, 3)) == 0,
-            "bundle": bundle, "filters": draw(filters_for(tpl)),
+            "bundle": bundle,
+            "filters": (queries[0]["filters"]
+                        if queries and queries[0]["filters"] is not None
+                        and draw(st.booleans())
+                        else draw(filters_for(tpl))),
             "no_files_error": draw(st.booleans()),
         })
     excl_files = draw(st.lists(st.integers(0, 30), max_size=2)) \
